@@ -123,6 +123,9 @@ func MarshalPublicKey(k PubKey) ([]byte, error) {
 
 // PublicKeyToProto converts a public key object into an unserialized protobuf PublicKey message.
 func PublicKeyToProto(k PubKey) (*PublicKey, error) {
+	if k == nil {
+		return nil, ErrNilPublicKey
+	}
 	data, err := k.Raw()
 	if err != nil {
 		return nil, err
@@ -148,6 +151,9 @@ func UnmarshalPrivateKey(data []byte) (PrivKey, error) {
 
 // MarshalPrivateKey converts a key object into its protobuf serialized form.
 func MarshalPrivateKey(k PrivKey) ([]byte, error) {
+	if k == nil {
+		return nil, ErrNilPrivateKey
+	}
 	data, err := k.Raw()
 	if err != nil {
 		return nil, err
@@ -170,6 +176,9 @@ func ConfigEncodeKey(b []byte) string {
 
 // basicEquals compares two keys by raw bytes.
 func basicEquals(k1, k2 Key) bool {
+	if k1 == nil || k2 == nil {
+		return false
+	}
 	if k1.Type() != k2.Type() {
 		return false
 	}
